@@ -339,8 +339,9 @@ def h_cell_store(ex, st, r, f, v, node):
     b = simp(a + Z(y.n))
     ex.oblige(st, z3.And(a >= 0, Z(y.n) >= 1, b <= yk), f"segment_within_the_new_samples.{lbl}", "spec", node.lineno)
     ex.oblige(st, a == Z(st.ghost["covered"]), f"tiling.segments_consecutive.{lbl}", "spec", node.lineno)
-    ex.oblige(st, z3.And((yrem + a) / s == r, (yrem + b - 1) / s == r), f"alignment.segment_inside_its_block.{lbl}", "spec", node.lineno)
-    ex.oblige(st, win.a == (yrem + a) % s, f"alignment.window_offset.{lbl}", "spec", node.lineno)
+    # multiplicative form of  (yrem + a) // s == r == (yrem + b - 1) // s  and  window_start == (yrem + a) % s  (no div/mod in the goal)
+    ex.oblige(st, z3.And(r * s <= yrem + a, yrem + b <= (r + 1) * s), f"alignment.segment_inside_its_block.{lbl}", "spec", node.lineno)
+    ex.oblige(st, win.a == yrem + a - r * s, f"alignment.window_offset.{lbl}", "spec", node.lineno)
     # the samples are |y|^p of the inverse transform (the in-place non-linearity was applied to exactly these cells)
     k = z3.Int("nk!%d" % next(symex._fresh))
     cur = st.heap[y.root].content
